@@ -123,12 +123,12 @@ package nsqd
 //                                positions: UniqRands [distinct]);
 //  * loop 3 [asked-num] / [awaits-one-answer-each]  ... and then takes exactly `num` answers;
 //  * loop 2 [scans-at-least-one] 1 <= num == min(QueueScanSelectionCount, len(cached list)).
-// CONFIGURATION ASSUMPTIONS (requires[env-config]: an assumption about the configuration, reported, not an obligation of Main): --queue-scan-selection-count >= 1 (0: nothing is ever scanned; negative: make(chan)
+// CONFIGURATION ASSUMPTIONS (requires[config]: validated by nsqd.New since the `fix:` commit for the selection-count finding - New/[built] -, an obligation where Main starts the loop): --queue-scan-selection-count >= 1 (0: nothing is ever scanned; negative: make(chan)
 // panics at start-up) and --queue-scan-worker-pool-max >= 1 (see resizePool). Defaults 20 and 4. Notes, observation O1.
 //@ func (n *NSQD) queueScanLoop()
 //@   props C01 C04 C02
 //@   requires n != nil
-//@   requires[env-config] curOpts(n).QueueScanSelectionCount >= 1
+//@   requires[config] curOpts(n).QueueScanSelectionCount >= 1
 //@   modifies n.topicMap, mapstore(map[string]*Topic), Topic.channelMap, mapstore(map[string]*Channel), r4AChannelsCalls, r4ALastChannels,
 //@        n.poolSize, chanstore(int), r4AResizeCalls, r4AResizeNum, r4AResizeNSQD, chanstore(*Channel), chanstore(bool), chanstore(time.Time)
 //@   loop 0
